@@ -55,9 +55,7 @@ namespace awkward {
 
   void
   TupleBuilder::clear() {
-    for (auto x : contents_) {
-      x.get()->clear();
-    }
+    contents_.clear();
     length_ = -1;
     begun_ = false;
     nextindex_ = -1;
